@@ -27,6 +27,9 @@ type c04Root struct {
 	ti    *c03Struct
 	name  string // "OSM.MarshalXML"
 	tname string // "OSM"
+	// handed: when not empty, the scenario fixes the name of the start element handed to the method (the tag of the
+	// holding field, or the Go type name when the value is marshalled on its own)
+	handed string
 }
 
 func c04Roots(p *core.Program) []*c04Root {
@@ -228,6 +231,10 @@ func c04Run(p *core.Program, root *c04Root, z c04Zero, tag string) ([]*c04Trace,
 					}
 				case root.enc:
 					v.Z = triF
+				case root.start:
+					if root.handed != "" && len(v.Path) == 2 && v.Path[0].Name() == "Name" && v.Path[1].Name() == "Local" {
+						return c03ScenarioString(root.handed, v.T)
+					}
 				}
 			}
 			return v
@@ -352,49 +359,3 @@ func c04ElemFields(t types.Type) []*c03Field {
 
 // c04GoPathOf returns the Go field path (embedded fields included) of an XML field view.
 func c04GoPathOf(f *c03Field) []*types.Var { return append(append([]*types.Var{}, f.Via...), f.Var) }
-
-// c04StartOverrideOf observes which element name a MarshalXML method writes for its value: the name it was handed
-// (the field tag supplied by encoding/xml) or a constant it forces.
-func c04StartOverrideOf(p *core.Program, fi *FuncInfo) c03StartOverride {
-	var ov c03StartOverride
-	for _, root := range c04Roots(p) {
-		if root.fi.Obj != fi.Obj {
-			continue
-		}
-		trs, ab := c04Run(p, root, c04AllSet, "start override")
-		if ab != "" {
-			ov.Unknown = ab
-			return ov
-		}
-		for _, tr := range trs {
-			var names []c04Name
-			for _, t := range tr.rootTokens() {
-				names = append(names, t.name)
-			}
-			for _, em := range tr.emits {
-				if len(em.open) == 0 && em.tmpl != nil {
-					names = append(names, *em.tmpl)
-				}
-			}
-			for _, n := range names {
-				switch n.kind {
-				case "const":
-					if ov.Forced != "" && ov.Forced != n.s {
-						ov.Unknown = "writes different element names on different paths"
-					}
-					ov.Forced = n.s
-				case "pass":
-					ov.Passes = true
-				default:
-					ov.Unknown = "the element name it writes cannot be resolved (" + n.String() + ")"
-				}
-			}
-		}
-		if ov.Forced != "" && ov.Passes {
-			ov.Unknown = "writes the handed name on some paths and <" + ov.Forced + "> on others"
-		}
-		return ov
-	}
-	ov.Unknown = "MarshalXML does not have (encoder, start) parameters"
-	return ov
-}
